@@ -12,6 +12,7 @@ import pytz
 from harness.common import watchdog, run_lean, err_enum, rat_str, frac
 from harness import realsys, leanio
 from harness.realsys import u, ExplainableHourlyQuantities, SourceObject, canon
+from efootprint.abstract_modeling_classes.explainable_objects import EmptyExplainableObject
 
 QUICK_ZONES = ["Europe/Paris", "America/New_York", "Australia/Lord_Howe", "Asia/Kathmandu", "Asia/Kolkata",
                "Pacific/Apia", "Pacific/Kwajalein", "America/St_Johns", "Pacific/Chatham", "Australia/Adelaide",
@@ -89,9 +90,42 @@ def run_real_system(case):
             co = Country("co", "COU", SourceValue(100 * u.g / u.kWh), SourceObject(pytz.timezone(case["zone"])))
             up = UsagePattern("up", uj, [Device.from_defaults("dev")], Network.from_defaults("net"), co, starts)
             System("sys", usage_patterns=[up])
-            return "ok", canon(up.utc_hourly_usage_journey_starts)
+            base = canon(up.utc_hourly_usage_journey_starts)
+            case["_sim_verdicts"] = simulation_verdicts(up, base)
+            return "ok", base
     except Exception as e:  # noqa
         return "err", err_enum(e)
+
+
+def simulation_verdicts(up, base):
+    """the conversion as a dated what-if performs it: for a simulation dated at each UTC hour of the window (the hours
+    touched by the clock change among them) whose change makes the usage pattern recompute its UTC starts from the
+    local series cut at the date, the simulated UTC starts are the baseline's from the date on — nothing dropped at the
+    skipped hour, nothing kept from before the date at the repeated one"""
+    from datetime import timezone
+    from efootprint.abstract_modeling_classes.modeling_update import ModelingUpdate
+    from efootprint.core.hardware.device import Device
+    out = []
+    dev2 = Device.from_defaults("dev2")
+    for k in base["ks"]:
+        d = datetime.fromtimestamp(k, tz=timezone.utc)
+        try:
+            sim = ModelingUpdate([[up.devices, [dev2]]], simulation_date=d)
+        except Exception as e:  # noqa
+            if k == base["ks"][-1] or k == base["ks"][0]:
+                continue        # the ends of the period may be refused (period check on the local series)
+            out.append(f"simulation-raises:{err_enum(e)}")
+            break
+        twin = next((r for v, r in zip(sim.values_to_recompute, sim.recomputed_values) if v is up.utc_hourly_usage_journey_starts), None)
+        if twin is None or not hasattr(twin, "value") or isinstance(twin, EmptyExplainableObject):
+            continue
+        c = canon(twin)
+        exp = [(kk, vv) for kk, vv in zip(base["ks"], base["vs"]) if kk >= k]
+        got = list(zip(c["ks"], c["vs"]))
+        if [g[0] for g in got] != [e[0] for e in exp] or any(abs(g[1] - e[1]) > 1e-9 * max(1.0, abs(e[1])) for g, e in zip(got, exp)):
+            out.append(f"simulated-conversion-differs-from-baseline-at-date: dated {d.isoformat()}: simulated UTC starts {got[:3]}… baseline from the date on {exp[:3]}…")
+            break
+    return out
 
 
 def pair_cases(rng, n):
@@ -202,6 +236,10 @@ def run_shard(args):
             st2, r2 = run_real_system(c)
             out["system_path"] += 1
             st1, r1 = reals[k]
+            for sv_ in c.pop("_sim_verdicts", []):
+                out["violations"].append({"signature": "C11:" + sv_.split(":", 1)[0] + (":" + sv_.split(":")[1] if sv_.startswith("simulation-raises") else ""),
+                                          "detail": f"{c['zone']} start {c['start']}: {sv_}", "replay": {"case": c}})
+            out["sim_dates"] = out.get("sim_dates", 0) + (len(r2["ks"]) if st2 == "ok" else 0)
             if st1 == "ok" and (st2 != "ok" or r2["ks"] != r1["ks"] or any(abs(a - b) > 1e-9 * max(1.0, abs(b)) for a, b in zip(r2["vs"], r1["vs"]))):
                 why = f"raises {r2}" if st2 != "ok" else f"keys/values {r2['ks'][:4]}…/{r2['vs'][:4]}… vs direct conversion {r1['ks'][:4]}…/{r1['vs'][:4]}…"
                 out["violations"].append({"signature": "C11:usage-pattern-conversion-differs-from-convert_to_utc",
